@@ -187,7 +187,7 @@ Qed.
 Lemma inert_after i0' done cur i r' got :
   nth_error (rc_args cur) i <> None ->
   r_raw r' = true ->
-  (akind_eqb (a_kind (r_spec r')) KList && negb got) = false ->
+  (needs_value r' && negb got) = false ->
   inert (MS i0' done (upd_cur cur i r') (Some (S (List.length done), i)) got).
 Proof.
   intros N R K. unfold inert. cbn [m_flag MS]. exists r'. split; [|split; [exact R | exact K]].
@@ -233,7 +233,7 @@ Proof.
     split; [|split].
     + apply steps_one.
       apply (step_bool_flag p i0 done cur fl got tok (o_arg o) r I Ctok Ftok Nr Kb' Ni').
-    + apply inert_after; [congruence | reflexivity | cbn [r_spec]; rewrite Kb'; reflexivity].
+    + apply inert_after; [congruence | reflexivity | rewrite needs_value_bool; [reflexivity | exact Kb']].
     + unfold given_after, is_value_form. rewrite Fo.
       eapply st_ok_after_set; eauto.
       * intros K. rewrite Kb' in K. discriminate.
@@ -262,7 +262,7 @@ Proof.
     split; [|split].
     + apply steps_one.
       apply (step_inverse_flag p i0 done cur fl got sv _ (o_arg o) r I Csv Fnone Finv Ftgt Nr Kb' Ni').
-    + apply inert_after; [congruence | reflexivity | cbn [r_spec]; rewrite Kb'; reflexivity].
+    + apply inert_after; [congruence | reflexivity | rewrite needs_value_bool; [reflexivity | exact Kb']].
     + unfold given_after, is_value_form. rewrite Fo.
       eapply st_ok_after_set; eauto.
       * intros K. rewrite Kb' in K. discriminate.
